@@ -235,6 +235,16 @@ theorem C04_xray_mass_fails_off_detector :
     sumTo 1 (xrayProject (α := ℚ) 1 (fun _ => 0) (fun _ => 1 / 2) (fun _ => 1) 1) ≠ sumTo 1 (fun _ => (1 : ℚ)) := by
   simp [sumTo, xrayProject, fixNeg]
 
+/-- negation witness for the code as it is (known finding `xray-left-edge-drop`, recorded): a pixel whose first bin
+    is `−1` (its boxcar straddles the left detector edge) contributes NOTHING — `inds < 0` is replaced by `ny`
+    before `inds + 1` is formed — although the documented two-bin matrix gives bin `0` the share `1 − w`.  (At the
+    right edge a pixel whose second bin is off the detector does keep its share `w` in the last bin.) -/
+theorem C04_xray_left_edge_fails :
+    xrayProject (α := ℚ) 1 (fun _ => -1) (fun _ => 1 / 2) (fun _ => 1) 2 0
+      ≠ mulVec (xrayMatrix (fun _ => -1) (fun _ => (1 / 2 : ℚ))) 1 (fun _ => 1) 0 := by
+  simp [xrayProject, xrayMatrix, mulVec, sumTo, fixNeg]
+  norm_num
+
 example : ∀ p : Nat, p < 2 → (0 : Int) ≤ (fun p : Nat => (p : Int)) p ∧ (fun p : Nat => (p : Int)) p + 1 < (3 : Nat) := by
   intro p hp; simp only; omega
 
@@ -768,42 +778,30 @@ example : (List.range 4).map (projEval (α := Int) ([((fun _ => 1), 1, 2, 2), ((
     = [5, 6, 8, 0] := by decide
 
 
-/-! ### 3-D X-ray projector: the voxel footprint split (known finding `xray3d-integer-edge`) -/
+/-! ### 3-D X-ray projector: the voxel footprint split -/
 
 section X3
 variable {F : Type} [Field F] [LinearOrder F] [IsStrictOrderedRing F]
 
-/-- documented split of a voxel footprint `[le, le + w]` between its first bin `floor(le)` and the next one: the
-    first share is the length of the overlap with the first bin, positive and at most `w` (the complement
-    `w − share` goes to the next bin; the 2-D weights are products of two such splits divided by `w²`). -/
-theorem C04_xray3d_split_documented (fl : F → Int) (hfl : FloorContract fl) (w le : F) (hw : 0 < w) :
-    x3ToNextDoc fl (fun z => (z : F)) 1 w le = min (((fl le : Int) : F) + 1) (le + w) - le
-    ∧ 0 < x3ToNextDoc fl (fun z => (z : F)) 1 w le ∧ x3ToNextDoc fl (fun z => (z : F)) 1 w le ≤ w :=
+/-- split of a voxel footprint `[le, le + w]` between its first bin `floor(le)` and the next one, as coded
+    (`to_next = minimum(floor(le) + 1 − le, w)`): for EVERY left edge the first share is the length of the overlap of
+    the footprint with the first bin, positive and at most `w` (the complement `w − share` goes to the next bin; the
+    four pixel weights are products of two such splits divided by `w²`). -/
+theorem C04_xray3d_split (fl : F → Int) (hfl : FloorContract fl) (w le : F) (hw : 0 < w) :
+    x3ToNext fl (fun z => (z : F)) 1 w le = x3Overlap fl (fun z => (z : F)) 1 w le
+    ∧ 0 < x3ToNext fl (fun z => (z : F)) 1 w le ∧ x3ToNext fl (fun z => (z : F)) 1 w le ≤ w :=
   x3_doc_overlap fl hfl w le hw
 
-/-- proved part for the code as it is (`to_next = minimum(ceil(le) − le, w)`): it IS the documented split whenever
-    the left edge of the footprint is not on a bin edge.  Missing for the full statement: integer `le`. -/
-theorem C04_xray3d_split_partial (fl cl : F → Int) (hfl : FloorContract fl) (hcl : CeilContract cl) (w le : F)
-    (hne : ((fl le : Int) : F) < le) :
-    x3ToNextCoded cl (fun z => (z : F)) w le = x3ToNextDoc fl (fun z => (z : F)) 1 w le :=
-  x3_coded_eq_doc fl cl hfl hcl w le hne
-
-/-- negation witness for the code as it is: when the left edge lies ON a bin edge `z` the coded share of bin `z`
-    is `0` — the whole footprint `[z, z + w] ⊂ [z, z + 1]` is credited to bin `z + 1` (and is lost when `z + 1` is
-    off the detector) — whereas the documented share is `w`.  `fixes/xray3d-integer-edge.patch`. -/
-theorem C04_xray3d_integer_edge_fails (fl cl : F → Int) (hfl : FloorContract fl) (hcl : CeilContract cl) (w : F)
-    (z : Int) (hw : 0 < w) (hw1 : w ≤ 1) :
-    x3ToNextCoded cl (fun z => (z : F)) w (z : F) = 0 ∧ x3ToNextDoc fl (fun z => (z : F)) 1 w (z : F) = w
-    ∧ x3ToNextCoded cl (fun z => (z : F)) w (z : F) ≠ x3ToNextDoc fl (fun z => (z : F)) 1 w (z : F) := by
-  obtain ⟨h1, h2⟩ := x3_coded_integer_edge fl cl hfl hcl w z hw hw1
-  exact ⟨h1, h2, by rw [h1, h2]; exact hw.ne⟩
+/-- record of the defect repaired in 883e83f (found by this engine): the earlier form `minimum(ceil(le) − le, w)`
+    agrees with the overlap off the bin edges, but ON a bin edge `z` it gives the first bin the share `0` — the whole
+    footprint `[z, z + w] ⊂ [z, z + 1]` was credited to bin `z + 1` — where the overlap is `w`. -/
+theorem C04_xray3d_ceil_form (fl cl : F → Int) (hfl : FloorContract fl) (hcl : CeilContract cl) (w : F) (hw : 0 < w)
+    (hw1 : w ≤ 1) :
+    (∀ le : F, ((fl le : Int) : F) < le → x3ToNextCeil cl (fun z => (z : F)) w le = x3ToNext fl (fun z => (z : F)) 1 w le)
+    ∧ (∀ z : Int, x3ToNextCeil cl (fun z => (z : F)) w (z : F) = 0 ∧ x3ToNext fl (fun z => (z : F)) 1 w (z : F) = w) :=
+  ⟨fun le hne => x3_coded_eq_doc fl cl hfl hcl w le hne, fun z => x3_coded_integer_edge fl cl hfl hcl w z hw hw1⟩
 
 end X3
-
-/-- FULL statement (NOT claimed for the code as it is): the coded split is the documented one for every left edge. -/
-def C04_xray3d_split_stmt : Prop :=
-  ∀ (fl cl : ℚ → Int), FloorContract fl → CeilContract cl → ∀ w le : ℚ, 0 < w → w ≤ 1 →
-    x3ToNextCoded cl (fun z => (z : ℚ)) w le = x3ToNextDoc fl (fun z => (z : ℚ)) 1 w le
 
 example : CeilContract (K := ℚ) Rat.ceil := fun z => by
   constructor
